@@ -4,7 +4,6 @@
 From V.model Require Import Base RelLex RelParse RelAcc RelGrammar.
 From V.model Require Import RelEdit RelEditSpec RelEditTree RelLive.
 From V.proofs Require Import BaseP RelEditP RelEditStP RelEditTreeP RelLiveP RelLiveStepP.
-Set Default Timeout 60.
 
 Ltac andb_hyps :=
   repeat match goal with
